@@ -360,6 +360,7 @@ func runTP(c TPCase, _ bool) *fOutcome {
 			t.wk = workerapi.NewServer(ph)
 			t.wk.ResolveRoute = w.state.resolvePull
 			t.wk.Authorize = w.state.authorizeWorker
+			t.wk.PlanRequest = w.state.planWorker // as startServers wires it
 		}
 		return t
 	}
